@@ -117,6 +117,23 @@ pub fn case_strategy(focus: Focus, len: std::ops::Range<usize>) -> BoxedStrategy
                     pre.push(SOp::SaveMessage { g, m: b[10] % N_MSG, created: 0, processed: 1, epoch: 1, state: 1, content: 1, tag: 1, author: 0 });
                     pre.push(SOp::WriteGroupData { g, kind: b[11] % N_KINDS, val: b[0] });
                 }
+                let mut ops = ops;
+                if b[11] % 5 == 0 {
+                    // a rollback that has to be refused: after the snapshot the group moves to
+                    // another Nostr group id and a second group takes the old one
+                    let at = (b[10] as usize) % (ops.len() + 1);
+                    let macro_ops = vec![
+                        SOp::Snapshot { g: 0, name: 0 },
+                        SOp::SaveGroup { g: 0, n: 3, name: b[1], epoch: b[2] % 4, state: 0, admins: b[3] % 8, last: b[4], img: b[5], su: b[6] },
+                        SOp::SaveGroup { g: 1, n: 0, name: b[1], epoch: b[2] % 4, state: 0, admins: b[3] % 8, last: b[4], img: b[5], su: b[6] },
+                        SOp::Rollback { g: 0, name: 0 },
+                        SOp::SaveGroup { g: 1, n: 1, name: b[1], epoch: b[2] % 4, state: 0, admins: b[3] % 8, last: b[4], img: b[5], su: b[6] },
+                        SOp::Rollback { g: 0, name: 0 },
+                    ];
+                    for (i, o) in macro_ops.into_iter().enumerate() {
+                        ops.insert(at + i, o);
+                    }
+                }
                 pre.extend(ops);
                 StoreCase { ops: pre }
             })
